@@ -206,7 +206,7 @@ func runC12(c *Ctx) {
 				j.judgeUnmarshal(bytesFromBits(ref.Encode(r.Bool(), coef, be-ref.Bias)))
 			}
 		}
-		n := c.N(30000, 800000)
+		n := c.N(150000, 2000000)
 		for i := 0; i < n; i++ {
 			switch i % 8 {
 			case 0: // wrong lengths
